@@ -14,9 +14,11 @@ Definition expand (d : list seg) : list N := flat_map seg_expand d.
 
 (** observed outcome of the implementation:
     [o_class] 0 = dispatched ([o_bytes] = the view handed to the dispatcher),
-              1 = reply ([o_bytes] = the SCMP packet), 2 = reply could not be encoded (dropped),
-              9 = panic;
-    [o_err] failed check: 0 none, 1 MalformedPacket, 2 InvalidSourceAddress, 3 InvalidPathType *)
+              1 = reply ([o_bytes] = the SCMP packet), 2 = reply could not be encoded (dropped)
+              or, end-to-end, no effect observed, 3 = not answered because the datagram is an SCMP
+              error message, 9 = panic or more than one effect;
+    [o_err] failed check: 0 none, 1 MalformedPacket, 2 InvalidSourceAddress, 3 InvalidPathType,
+            255 = not observable (end-to-end cases: only the gateway's effects are seen) *)
 Record icase := mkI {
   i_local : ipaddr; i_from : ipaddr; i_dgram : list seg;
   o_class : N; o_err : N; o_bytes : list seg }.
@@ -29,18 +31,19 @@ Definition bytes_eqb := list_eqb N.eqb.
 Definition verdict (c : icase) : N :=
   let d := expand (i_dgram c) in
   let ob := expand (o_bytes c) in
-  let m_act := gateway_inbound (i_local c) d (i_from c) in
+  let m_act := gateway_decision (i_local c) d (i_from c) in
+  let e2e := o_err c =? 255 in
   let m_err := match inbound_datagram_check d (i_from c) with
                | Ok _ => 0 | Err e => perr_code e | Panic _ => 9 end in
   let agree :=
     match m_act with
-    | Ok [Dispatched v] => (o_class c =? 0) && bytes_eqb v ob
-    | Ok [Sent r] => (o_class c =? 1) && bytes_eqb r ob
-    | Ok [] => (o_class c =? 2)
-    | Ok _ => false
+    | Ok (DDispatch v) => (o_class c =? 0) && bytes_eqb v ob
+    | Ok (DReply r) => (o_class c =? 1) && bytes_eqb r ob
+    | Ok (DEncodeError _) => (o_class c =? 2)
+    | Ok DSuppress => if e2e then o_class c =? 2 else o_class c =? 3
     | Err _ => false
     | Panic _ => (o_class c =? 9)
-    end && (if o_class c =? 9 then true else m_err =? o_err c) in
+    end && (if (o_class c =? 9) || (o_err c =? 255) then true else m_err =? o_err c) in
   (* property oracles on the implementation's output *)
   let oracle_ok :=
     if o_class c =? 0 then
@@ -48,6 +51,7 @@ Definition verdict (c : icase) : N :=
       spec_accept d (i_from c) && bytes_eqb ob (spec_packet d)
     else if o_class c =? 1 then spec_reply_ok ob d (i_from c)
     else if o_class c =? 2 then true       (* no reply: "at most one" *)
+    else if o_class c =? 3 then spec_is_scmp_error d && negb (spec_accept d (i_from c))
     else false in                          (* panic *)
   (if agree then 0 else 1) + (if oracle_ok then 0 else 2).
 
